@@ -31,7 +31,7 @@ def SL(name, builder, K, timeout_s=1500, params=None):
 
 def units(tier):
     t = 1200 if tier == "thorough" else 400
-    return [
+    u = [
         SL("slice.terminate_broken", "x6_terminate_broken", 44),
         SL("slice.terminate_broken_vs_submit", "x6_terminate_broken", 70, params={"with_user": True}),
         SL("slice.crash_after_respawn", "x10_crash_after_respawn", 60, params={"live0": 0}),
@@ -50,3 +50,6 @@ def units(tier):
           "same without psutil"),
         H("C02", "lokyverif.harness.c03_steps", "check_submit_step", t, ["loky.process_executor:ProcessPoolExecutor.submit"], "submit on a broken pool raises the stored error object"),
     ]
+    if tier == "thorough":
+        u += [SL("slice.terminate_broken.n3", "x6_terminate_broken", 56, timeout_s=3000, params={"n": 3})]
+    return u
